@@ -16,6 +16,8 @@ FAMS_Q = {
     "val": ("val", {}),
     "prov": ("prov", {}),
     "bad": ("bad", {}),
+    "xmod": ("xmod", {}),
+    "xmod_l": ("xmod", {"small": False}),
 }
 
 ASSUME = ["amaranth pysim is the semantics of the elaborated circuit",
